@@ -25,6 +25,7 @@ class Ctx:
         self.undecided = []
         self.rule_counts = {}
         self.floor_failures = []
+        self._seen_ok = set()
         self.extra = {}
         self.t0 = time.time()
 
@@ -33,6 +34,10 @@ class Ctx:
         return self.only_rule is None or rule == self.only_rule or rule.startswith(self.only_rule + ' ')
 
     def ok(self, rule, site, stmt='', verdict=''):
+        k = (rule, site, stmt, verdict)
+        if k in self._seen_ok:
+            return
+        self._seen_ok.add(k)
         self.obligations.append({'rule': rule, 'site': site, 'stmt': stmt, 'verdict': verdict, 'ok': True})
         self.rule_counts[rule] = self.rule_counts.get(rule, 0) + 1
         if self.verbose:
